@@ -54,7 +54,7 @@ prop("C03",
 
 prop("C04",
      [("T1", T.T1, K01, {}), ("T2", T.T2, K01, {}), ("T3", T.T3, K01, {"want_stream": False}),
-      ("S6", S.S6, K01, {}), ("S7", S.S7, K01, {}), ("S1", S.S1, K01, {}), ("T4", T.T4, ("K1",), {}), ("A1", T.A1, K01, {}), ("A2", R.A2, K01, {}), ("S4", S.S4, K01, {}), ("S6b", S.S6b_bitsets, K01, {}), ("L5", R.L5, K01, {}), ("T5", T.T5, K01, {}), ("N7", B.N7, K01, {}), ("T6", T.T6, K01, {}),
+      ("S6", S.S6, K01, {}), ("S7", S.S7, K01, {}), ("S1", S.S1, K01, {}), ("T4", T.T4, ("K1",), {}), ("A1", T.A1, K01, {}), ("A2", R.A2, K01, {}), ("S4", S.S4, K01, {}), ("S6b", S.S6b_bitsets, K01, {}), ("L5", R.L5, K01, {}), ("T5", T.T5, K01, {}), ("N7", B.N7, K01, {}), ("T6", T.T6, K01, {}), ("P2", T.P2, K01, {}),
       ("S2", S.S2, K01, {}), ("S3", S.S3, K01, {}), ("IM", S.S5_interrupt_map, ("K1",), {"rule": "IM"}),
       ("R3", B.R3, ("K0",), {"parts": ("structures", "counts")}), ("R4", B.R4, ("K0",), {})],
      K01,
@@ -102,7 +102,7 @@ prop("C06",
       ("S6", S.S6, K01, {"roles_filter": ("READY", "DONE")}),
       ("W4", lambda ctx: __import__("rules_run").W4(ctx), K01, {}), ("S2", S.S2, K01, {}),
       ("R3", B.R3, K0, {"parts": ("structures", "counts")}), ("R4", B.R4, K0, {}), ("S1", S.S1, K01, {}),
-      ("T3", T.T3, K01, {"want_stream": True}), ("Q6", R.clone_frame, K0, {})],
+      ("T3", T.T3, K01, {"want_stream": True}), ("Q6", R.clone_frame, K0, {}), ("S4", S.S4, K01, {"liveness": True})],
      K01,
      "Decides W4 = L1 (limit forwarded unchanged, so None gates nothing), W1 (the only edge-adding call on the user's graph reachable from build() is update_edge with the constant Edge::Data, "
      "no other node/edge-set mutator), W2 (the comparison pairs feeding its guard contain no read x read pair and no same-function pair; "
@@ -174,7 +174,7 @@ prop("C07",
      [("F", R.F_rules, K01, {}), ("S6", S.S6, K01, {"roles_filter": ("RESULT",)}), ("T1", T.T1, K01, {"kinds": ("FAILED",)}),
       ("O4", R.O4, K01, {}), ("S7", S.S7, K01, {}),
       ("B1", S.opts_frame, K01, {"fields": ("StreamOrder",)}), ("B2", S.order_wiring, K01, {}),
-      ("R2", B.R2, ("K0",), {"strict_order": False}), ("R3", B.R3, ("K0",), {"parts": ("structures", "counts")}), ("S1", S.S1, K01, {})],
+      ("R2", B.R2, ("K0",), {"strict_order": False}), ("R3", B.R3, ("K0",), {"parts": ("structures", "counts")}), ("S1", S.S1, K01, {}), ("R6", B.D2_coverage, ("K0",), {})],
      K01,
      "Decides F1 (on the Err arm of the user future exactly one awaited send on the RESULT channel carries that error), F2 (from the Err arm every "
      "path to the done-send passes through the release of the done-sender), F3 (RESULT capacity monotone in node_count; its receiver is drained only "
@@ -186,7 +186,7 @@ prop("C07",
 
 prop("C08",
      [("I", R.I_rules, ("K1",), {}), ("S5", S.S5, ("K1",), {}), ("T1", T.T1, ("K1",), {"kinds": ("INTERRUPTED",)}), ("T4", T.T4, ("K1",), {}),
-      ("B1", S.opts_frame, ("K1",), {"fields": ("InterruptibilityState", "bool")}), ("S7", S.S7, ("K1",), {}), ("O3b", R.O3b, ("K1",), {}), ("O", R.O_rules, ("K1",), {}), ("S6b", S.S6b_bitsets, ("K1",), {})],
+      ("B1", S.opts_frame, ("K1",), {"fields": ("InterruptibilityState", "bool")}), ("S7", S.S7, ("K1",), {}), ("O3b", R.O3b, ("K1",), {}), ("O", R.O_rules, ("K1",), {}), ("S6b", S.S6b_bitsets, ("K1",), {}), ("P2", T.P2, ("K1",), {}), ("L6", R.L6, ("K1",), {})],
      ("K1",),
      "Decides the wiring only: I1 (opts.interruptibility_state and interrupted_next_item_include flow unchanged from each public parameter - or from "
      "StreamOpts::default() - to the ready-stream wrapper; stream_with_interruptible passes the state to interruptible_with, stream/stream_with do not wrap), "
@@ -208,7 +208,7 @@ prop("C09",
 
 prop("C10",
      [("L1", R.L1, K01, {}), ("L2", R.L2, K01, {}), ("L3", R.L3, K01, {}), ("S6", S.S6, K01, {"roles_filter": ("READY",)}),
-      ("L4", R.L4, K01, {}), ("S2", S.S2, K01, {}), ("R3", B.R3, ("K0",), {"parts": ("structures", "counts")})],
+      ("L4", R.L4, K01, {}), ("S2", S.S2, K01, {}), ("R3", B.R3, ("K0",), {"parts": ("structures", "counts")}), ("S1", S.S1, K01, {})],
      K01,
      "Decides L1 (`limit` flows unchanged from each of the 12 public parameters into StreamExt::for_each_concurrent's limit argument, whose stream is the READY stream) "
      "L2 (fold/try_fold paths are sequential - StreamExt::fold / try_fold or one `while let .. next().await` loop - and go on only after the user future's Ready arm), "
